@@ -742,6 +742,23 @@ def slLine (st : St) (line : String) : St × List String :=
   | lt =>
     let st := { st with lineNo := st.lineNo + 1, lines := st.lines + 1,
                         caseHash := mixHash st.caseHash (hash l) }
+    -- Finding F2 probe (outside the model: the model has no unit-struct component type). The specification is C14's
+    -- own statement: every marked source entity's component is there after the round trip, whatever the format.
+    if lt == ["unit_roundtrip"] then
+      (match toks r with
+       | ["unit", "kept", k, "of", n] =>
+         if k == n then (st, [])
+         else if st.monDead then (st, [])
+         else
+           ({ st with monDead := true, mons := st.mons + 1, diffs := st.diffs + (if st.stopped then 0 else 1), stopped := true },
+            (if st.stopped then [] else
+              [s!"DIFF case={st.caseId} line={st.lineNo} op=[unit_roundtrip] impl=[{r}] model=[unit kept {n} of {n}]"]) ++
+            [s!"MON C14 case={st.caseId} line={st.lineNo} a unit-struct component the marked source entities had is missing after serialise + load into an empty world ({k} of {n} carriers left) op=[unit_roundtrip]"])
+       | _ =>
+         if st.monDead then (st, []) else
+         ({ st with monDead := true, mons := st.mons + 1 },
+          [s!"MON C14 case={st.caseId} line={st.lineNo} round trip of marked entities with a unit-struct component did not succeed: {(r.take 100).toString} op=[unit_roundtrip]"]))
+    else
     match parseOp? lt with
     | none => (st, [s!"BAD case={st.caseId} line={st.lineNo} unparsable op: {l}"])
     | some op =>
